@@ -10,7 +10,7 @@ import tempfile
 from common import setup_path
 
 setup_path()
-POSITIONS = ["body", "header", "title", "subline", "footnote_t", "footnote_p", "source_t", "source_p", "pageby", "sublineby", "pghdr", "pgftr"]
+POSITIONS = ["body", "header", "title", "subline", "footnote_t", "footnote_p", "source_t", "source_p", "pageby", "pageby2", "sublineby", "pghdr", "pgftr"]
 
 
 def is_testable(cp):
@@ -102,6 +102,10 @@ def run_position(item):
     elif where == "pageby":
         df = pl.DataFrame({"g": [text, text], "c": ["plain1", "plain2"]})
         body_kw.update(page_by=["g"], **kw)
+    elif where == "pageby2":
+        # the heading of a group that starts further down the page (rendered by the in-page boundary path)
+        df = pl.DataFrame({"g": ["first", "first", text, text], "c": ["plain1", "plain2", "plain3", "plain4"]})
+        body_kw.update(page_by=["g"], new_page=False, **kw)
     elif where == "sublineby":
         df = pl.DataFrame({"g": [text, text], "c": ["plain1", "plain2"]})
         body_kw.update(subline_by=["g"], **kw)
